@@ -13,7 +13,7 @@ set_option linter.unusedVariables false
 
 open Finset BigOperators
 
-namespace GT
+namespace GT.Act
 open ND
 
 variable {K : Type} [Field K] [Inhabited K]
@@ -67,4 +67,4 @@ theorem mp32_units (mode : Bcast) (a₁ a₂ : ND K) {o1 o2 O : List ℕ} {k p n
   simp only [stackAt, matAt, Matrix.mul_apply]
   rw [hg bix v.1 r.1 cc.1 hv v.2 r.2 cc.2, sum_map_range]
 
-end GT
+end GT.Act
